@@ -18,3 +18,10 @@ pub assume_specification<T, F: FnOnce() -> Option<T>> [Option::<T>::or_else] (o:
 pub assume_specification<T, E, U, F: FnOnce(T) -> Result<U, E>> [Result::<T, E>::and_then] (o: Result<T, E>, f: F) -> (r: Result<U, E>)
     requires o is Ok ==> f.requires((o->Ok_0,)),
     ensures o is Err ==> r is Err && r->Err_0 == o->Err_0, o is Ok ==> f.ensures((o->Ok_0,), r);
+// `==` / `!=` on byte arrays is structural equality (vstd leaves eq_spec of arrays abstract) — ASSUMED axiom
+pub mod vx_axioms {
+    use vstd::prelude::*;
+    use vstd::std_specs::cmp::PartialEqSpec;
+    pub broadcast axiom fn axiom_u8_array_eq_spec<const N: usize>(a: [u8; N], b: [u8; N]) ensures #[trigger] a.eq_spec(&b) == (a == b);
+}
+broadcast use vx_axioms::axiom_u8_array_eq_spec;
